@@ -236,7 +236,7 @@ def _stems_strategy(tier):
 LABELS_PRE = ["", "www.", "m.", "mobile.", "amp.", "www2.", "fr.", "fr-fr.", "FR-FR.", "pt-BR.", "xx.", "en.", "wwww.", "forum-m.", "amp-", "www.fr.", "fr.www.", "fr.amp-",
               "m.fr-ca.", "xn--9ca.", "é."]
 LABELS_BASE = ["facebook.com", "example.co.uk", "lemonde.fr", "EXAMPLE.Com", "co.uk", "com", "x.kawasaki.jp", "a.x.kawasaki.jp", "me.blogspot.com", "xn--9ca.fr", "é.fr",
-               "site.unknowntld", "münchen.de"]
+               "site.unknowntld", "münchen.de", "straße.de", "fußball.example.co.uk", "ΟΔΌΣ.gr", "ελληνικός.gr", "İstanbul.com"]
 
 
 def _bare_enum(acc, shard, nshards, seed, tier):
